@@ -369,9 +369,26 @@ def base_data(feats):
     return d
 
 
-def new_ds(feats, cfg):
+def temp_data(feat, version):
+    """concrete data of a temporary feature; versions differ in every event"""
+    rs = np.random.RandomState(abs(hash(feat)) % 1000 + 17 * version)
+    if feat.startswith("ml_score"):
+        # every new version of a score changes which class wins
+        base = {"ml_score_abc": [0.9, 0.1], "ml_score_xyz": [0.5, 0.5]}.get(
+            feat, [0.3, 0.7])
+        arr = np.array((base * N)[:N])
+        return arr if version % 2 == 0 else 1.0 - arr + 0.01 * version
+    if feat == "temp":
+        return 20.0 + version + rs.rand(N)
+    return rs.rand(N) + 1.0 + version
+
+
+def new_ds(feats, cfg, temps=None):
     import dclab
+    from dclab.rtdc_dataset import feat_temp
     ds = dclab.new_dataset(base_data(feats))
+    for f, ver in (temps or {}).items():
+        feat_temp.set_temporary_feature(ds, f, temp_data(f, ver))
     for sec in ds.config.keys():
         if sec not in cfg:
             cfg[sec] = Sec(dict(ds.config[sec]))
@@ -422,11 +439,19 @@ def run_history(eng, p):
             cfg[sec][k] = fresh_num(k) if v == "num" else v
     feat = p["target"]
     with patched(), plugin(p.get("plugin")):
-        ds = new_ds(p["feats"], cfg)
+        temps = dict(p.get("temps", {}))
+        ds = new_ds(p["feats"], cfg, temps)
         steps = [("read",)] + [tuple(e) for e in p["edits"]] + [("check",)]
         for st in steps:
             if st[0] == "read":
                 try_read(ds, feat)
+            elif st[0] == "temp":
+                # set / replace a temporary feature (public API)
+                from dclab.rtdc_dataset import feat_temp
+                temps[st[1]] = st[2]
+                with quiet():
+                    feat_temp.set_temporary_feature(
+                        ds, st[1], temp_data(st[1], st[2]))
             elif st[0] == "set":
                 _, sec, key, val = st
                 ds.config.setdefault(sec, Sec())[key] = \
@@ -446,7 +471,7 @@ def run_history(eng, p):
                                      "raises %s" % type(data).__name__),
                              detail=repr(data)[:200])
                 # fresh dataset, same data, same current configuration
-                ds2 = new_ds(p["feats"], ds.config.copy())
+                ds2 = new_ds(p["feats"], ds.config.copy(), temps)
                 ok2, data2 = try_read(ds2, feat)
                 if ok != ok2:
                     eng.fail("long-lived dataset %s but a fresh dataset %s"
@@ -579,6 +604,30 @@ def cases(tier, seed):
         out.append(("area_um chain history %d" % i, dict(
             feats=pfeats, cfg=pcfg, target="area_um", edits=h,
             plugin=True)))
+    # temporary features that feed a computed feature are set / replaced
+    mcfg = {"imaging": {}, "setup": {}, "calculation": {}}
+    for tag, temps, edits in (
+            ("replace one score", {"ml_score_abc": 0, "ml_score_xyz": 0},
+             [["temp", "ml_score_abc", 1]]),
+            ("replace both scores", {"ml_score_abc": 0, "ml_score_xyz": 0},
+             [["temp", "ml_score_abc", 1], ["temp", "ml_score_xyz", 2]]),
+            ("add a third score", {"ml_score_abc": 0, "ml_score_xyz": 0},
+             [["temp", "ml_score_new", 1]]),
+            ("replace, read, replace", {"ml_score_abc": 0, "ml_score_xyz": 0},
+             [["temp", "ml_score_abc", 1], ["readf", "ml_class"],
+              ["temp", "ml_score_abc", 3]])):
+        out.append(("ml_class temporary scores: %s" % tag, dict(
+            feats=["deform"], cfg=mcfg, target="ml_class", temps=temps,
+            edits=edits)))
+    ecfg = {"calculation": {"emodulus lut": "LE-2D-FEM-19",
+                            "emodulus medium": "CellCarrier",
+                            "emodulus viscosity model": "buyukurganci-2022"},
+            "imaging": {"pixel size": "num"},
+            "setup": {"flow rate": "num", "channel width": "num",
+                      "chip region": "channel"}}
+    out.append(("emodulus temporary temp feature replaced", dict(
+        feats=["area_um", "deform"], cfg=ecfg, target="emodulus",
+        temps={"temp": 0}, edits=[["temp", "temp", 1]])))
     # crosstalk: every channel subset x coefficient presence
     ct_keys = ["crosstalk fl%d%d" % (i, j) for i in (1, 2, 3)
                for j in (1, 2, 3) if i != j]
@@ -643,6 +692,9 @@ def replay(case, params, v):
     feats = p["feats"]
     fails = []
     with quiet(), plugin(p.get("plugin")):
+        from dclab.rtdc_dataset import feat_temp
+        temps = dict(p.get("temps", {}))
+
         def make():
             d = base_data(feats)
             if "area_um" in d:
@@ -650,7 +702,10 @@ def replay(case, params, v):
                 d["deform"] = np.array([0.05, 0.08])
             if "temp" in d:
                 d["temp"] = np.array([22.5, 23.5])
-            return dclab.new_dataset(d)
+            dsn = dclab.new_dataset(d)
+            for f, ver in temps.items():
+                feat_temp.set_temporary_feature(dsn, f, temp_data(f, ver))
+            return dsn
         ds = make()
         _concrete_cfg(ds, p["cfg"], num)
         feat = p["target"]
@@ -670,6 +725,10 @@ def replay(case, params, v):
                     ds[ed[1]]
                 except Exception:
                     pass
+            elif ed[0] == "temp":
+                temps[ed[1]] = ed[2]
+                feat_temp.set_temporary_feature(ds, ed[1],
+                                                temp_data(ed[1], ed[2]))
             else:
                 ds.config[ed[1]].pop(ed[2], None)
         avail = feat in ds
